@@ -2,7 +2,7 @@
 import os
 
 from . import core
-from .rules import stdio, cert, mark, exact, optstore, inval, idx, atomic, own, tokens, idxclass, copy, pair, structfree, buf, div, counter, sentinel, appendinit, verdict, basismap, zerotol, escape, lenclass, djsym, ndet, useb4check, norms, opencheck, shell, esolver, errlost, rescan, certdep, neverset, fmt, defaults, scratch, fullscan, slotleak
+from .rules import stdio, cert, mark, exact, optstore, inval, idx, atomic, own, tokens, idxclass, copy, pair, structfree, buf, div, counter, sentinel, appendinit, verdict, basismap, zerotol, escape, lenclass, djsym, ndet, useb4check, norms, opencheck, shell, esolver, errlost, rescan, certdep, neverset, fmt, defaults, scratch, fullscan, slotleak, floatidx
 from .effects import Effects
 
 FIX = os.path.join(os.path.dirname(os.path.abspath(__file__)), "fixtures")
@@ -97,8 +97,15 @@ def fx_useb4():
     return [("R-USEB4CHECK fires exactly on {bad_order, bad_straight}", got == ["bad_order", "bad_straight"], str(got))]
 
 
+def fx_floatidx():
+    prog = core.build_fixture([os.path.join(FIX, "floatidx.c")])
+    r = floatidx.run(prog)
+    got = sorted(v.func for v in r.violations)
+    return [("R-FLOATIDX fires exactly on {bad_index}", got == ["bad_index"], str(got))]
+
+
 FIXTURES = {
-    "C17": [fx_useb4],
+    "C17": [fx_useb4, fx_floatidx],
     "C18": [fx_pair],
     "C16": [fx_copy],
     "C07": [fx_idx],
@@ -503,6 +510,7 @@ PROPS = {
                   lambda prog, tier: lenclass.run_capacity(prog),
                   lambda prog, tier: neverset.run(prog),
                   lambda prog, tier: fmt.run(prog),
+                  lambda prog, tier: floatidx.run(prog),
                   lambda prog, tier: appendinit.run(prog),
                   lambda prog, tier: counter.run(prog),
                   lambda prog, tier: useb4check.run(prog),
@@ -523,7 +531,8 @@ PROPS = {
                        "functions write slot [count] whenever count < capacity); (R-NEVERSET) every scalar field of a library record that live "
                        "code reads is written somewhere in the program (a field that is only read holds allocator garbage); (R-FMT) the format argument of every printf-like call "
                        "(the set of such functions is computed from the declarations) is a literal or a forwarded format parameter, "
-                       "never data; (R-APPENDINIT) slots appended by the add-row / add-column paths are initialised before the "
+                       "never data; (R-FLOATIDX) no array subscript depends on an int computed from a floating-point function without a "
+                       "dominating comparison of that int; (R-APPENDINIT) slots appended by the add-row / add-column paths are initialised before the "
                        "dimension is published; (R-CNT) basis counters are bounded; (R-NDET) the reproducibility sentence: constant seeds, "
                        "no clock / pid / libc randomness outside the timing wrappers, time reaches a branch only at the documented time "
                        "limit, no relational pointer comparison across objects and no pointer-to-integer value outside the slab allocator.",
